@@ -12,13 +12,15 @@ Record InvW (s : state) : Prop := {
   w_3 : fix5 s = true -> w2_finished (w2 s) = true -> runningWg s = 0
 }.
 
-Lemma InvW_init n hon f5 f6 f12 : InvW (init n hon f5 f6 f12).
+Lemma InvW_init_u n u hon f5 f6 f12 f16 : InvW (init_u n u hon f5 f6 f12 f16).
 Proof. constructor; simpl; intros; congruence. Qed.
+Lemma InvW_init n hon f5 f6 f12 : InvW (init n hon f5 f6 f12).
+Proof. apply InvW_init_u. Qed.
 
 Lemma alive_pos s h : InvA' s -> loop_alive (lp s h) = true -> 0 < handlersWg s.
 Proof.
   intros [[Ahwg _ Ahb1 _ _ _ _ _ _ _ _ _ _ _ _ _] _] Hl. rewrite Ahwg.
-  apply cnt_pos with (k := h); [|assumption].
+  apply Nat.lt_lt_add_r. apply cnt_pos with (k := h); [|assumption].
   destruct (Nat.lt_ge_cases h (nh s)) as [?|Hge]; [assumption|].
   apply Ahb1 in Hge. destruct Hge as [Hn _]. rewrite Hn in Hl. discriminate.
 Qed.
@@ -54,8 +56,10 @@ Record InvH (s : state) : Prop := {
   h_5 : forall h : hid, fix6 s = true -> early_cancel s = false -> hc_decided (hc s h) = true -> 1 <= sub_closes s h
 }.
 
-Lemma InvH_init n hon f5 f6 f12 : InvH (init n hon f5 f6 f12).
+Lemma InvH_init_u n u hon f5 f6 f12 f16 : InvH (init_u n u hon f5 f6 f12 f16).
 Proof. constructor; simpl; intros; try congruence; destruct (Nat.ltb h n); simpl in *; discriminate. Qed.
+Lemma InvH_init n hon f5 f6 f12 : InvH (init n hon f5 f6 f12).
+Proof. apply InvH_init_u. Qed.
 
 Lemma InvH_step s l s' : InvC s -> InvH s -> step s l = Some s' -> InvH s'.
 Proof.
@@ -108,10 +112,12 @@ Record Inv (s : state) : Prop := {
   i_c : InvC s; i_a : InvA' s; i_w : InvW s; i_h : InvH s; i_np : panicked s = false
 }.
 
-Lemma Inv_init n hon f5 f6 f12 : Inv (init n hon f5 f6 f12).
+Lemma Inv_init_u n u hon f5 f6 f12 f16 : Inv (init_u n u hon f5 f6 f12 f16).
 Proof.
-  constructor; [apply InvC_init | apply InvA'_init | apply InvW_init | apply InvH_init | reflexivity].
+  constructor; [apply InvC_init_u | apply InvA'_init_u | apply InvW_init_u | apply InvH_init_u | reflexivity].
 Qed.
+Lemma Inv_init n hon f5 f6 f12 : Inv (init n hon f5 f6 f12).
+Proof. apply Inv_init_u. Qed.
 
 Lemma Inv_step s l s' : Inv s -> step s l = Some s' -> Inv s'.
 Proof.
@@ -156,7 +162,8 @@ Proof.
   assert (Hr : runningWg s = 0) by (apply W3; [assumption | rewrite Hw2; reflexivity]).
   assert (Hloops : forall h, loop_over (lp s h) = true).
   { intros h. destruct (Nat.lt_ge_cases h (nh s)) as [Hlt|Hge].
-    - rewrite Ahwg in Hh. pose proof (cnt_zero loop_alive (lp s) (nh s) h Hh Hlt) as Hz.
+    - rewrite Ahwg in Hh. assert (Hh0 : cnt loop_alive (lp s) (nh s) = 0) by lia.
+      pose proof (cnt_zero loop_alive (lp s) (nh s) h Hh0 Hlt) as Hz.
       destruct (lp s h); simpl in *; congruence.
     - destruct (Ahb1 h Hge) as [Hn _]. rewrite Hn. reflexivity. }
   split; [|assumption].
@@ -262,7 +269,7 @@ Lemma holder_moves s c : holds (cp s c) = true -> closer_can_move s c.
 Proof.
   intros H. unfold closer_can_move, step.
   destruct (cp s c) eqn:E; simpl in H; try discriminate.
-  all: first [ left; destruct (closed s); discriminate | right; discriminate ].
+  all: first [ left; destruct (closed s); [|destruct (fix16 s)]; discriminate | right; discriminate ].
 Qed.
 
 Theorem close_never_stuck n hon f5 f6 f12 sched c :
